@@ -29,7 +29,8 @@ RULE = (
     "unchanged; the returned model's spike arrays equal the written files. Non-trivial: >=2 "
     "probes with a cross-probe time tie, or >=3 probes, or unequal spike counts, or a TSV present "
     "in some probes only. In half of the cases the same probe directories are merged a second time "
-    "in the same process (same or reversed order) and verified again.")
+    "in the same process (same or reversed order, or merge() called again on the same Merger) and "
+    "verified again.")
 ASSUMPTIONS = ['merging requires amplitudes.npy, pc_feature_ind.npy, template_feature_ind.npy and '
                'spike_clusters.npy in every probe (KiloSort always writes them)']
 
@@ -38,13 +39,43 @@ ASSUMPTIONS = ['merging requires amplitudes.npy, pc_feature_ind.npy, template_fe
 def _case(draw):
     c = draw(G.merge_case())
     # a second merge in the same process (same probe directories, same or reversed order)
-    c['again'] = draw(st.sampled_from([None, None, 'same', 'reversed']))
+    c['again'] = draw(st.sampled_from([None, None, 'same', 'reversed', 'same-merger']))
     return c
+
+
+def _large_cases(th):
+    # more than 2**20 (quick: 2**18) merged spikes
+    for i, sizes in enumerate([[2 ** 18 - 50000, 60000, 7], [700000, 400000]] +
+                              ([[2 ** 20 + 5, 2 ** 20 - 3, 11]] if th else [])):
+        yield {'large': {'sizes': sizes, 'seed': i + 1}, 'again': None}
+
+
+def _expand_large(par):
+    probes = []
+    for k, ns in enumerate(par['sizes']):
+        rs = np.random.RandomState(par['seed'] * 10 + k)
+        spec = D.large_spec(ns, seed=par['seed'] * 10 + k, nt=4, nc=3, nsw=3)
+        spec['n_raw'] = 3 * max(par['sizes'])
+        spec['samples'] = np.sort(rs.randint(0, spec['n_raw'], size=ns)).tolist()   # many ties
+        spec['time_dtype'] = ['uint64', 'int64'][k % 2]
+        spec['pcf']['nloc'] = 2
+        spec['pcf']['ind'] = [row[:2] for row in spec['pcf']['ind']]
+        spec['tf'] = {'nloc': 2, 'rows': None, 'ind': [rs.permutation(4)[:2].tolist()
+                                                        for _ in range(4)],
+                      'ind_dtype': 'uint32', 'dtype': 'float32', 'rows_dtype': 'int64'}
+        spec['tsv'] = {fn: True for fn in G.TSV_FILES}
+        spec['tsv_salt'] = k
+        spec['pos'] = [[10.0 * i, 20.0 * i] for i in range(3)]
+        probes.append(spec)
+    return {'probes': probes, 'dir_names': 'asc', 'out_is_parent': False}
 
 
 def drivers(tier):
     th = tier == 'thorough'
-    return [dict(kind='hyp', name='merges', strategy=_case(), examples=60000 if th else 6000)]
+    return [dict(kind='enum', name='large', exhaustive=False,
+                 bound='more than 2**18 (second case and thorough: 2**20) merged spikes',
+                 cases=lambda: _large_cases(th)),
+            dict(kind='hyp', name='merges', strategy=_case(), examples=60000 if th else 6000)]
 
 
 def _read_simple(path):
@@ -156,6 +187,8 @@ def _verify(Ts, out, model, info):
 
 def check(case):
     info = {}
+    if 'large' in case:
+        case = dict(_expand_large(case['large']), again=case.get('again'))
     with env.scratch() as d:
         Ts = G.build_probes(case, d)
         before = [D.sha_dir(T.dir) for T in Ts]
@@ -173,6 +206,16 @@ def check(case):
                     model.close()
                 except Exception:
                     pass
+            if case.get('again') == 'same-merger':
+                model = must_return('Merger.merge() (second call on the same object)',
+                                    merger.merge)
+                try:
+                    _verify(Tl, out, model, info)
+                finally:
+                    try:
+                        model.close()
+                    except Exception:
+                        pass
             after = [D.sha_dir(T.dir) for T in Ts]
             for k, (b, a) in enumerate(zip(before, after)):
                 require(a == b, 'input directory of probe %d changed' % k, key='inputs-changed',
@@ -184,6 +227,9 @@ def check(case):
 
 
 def classify(case, info):
+    if 'large' in case:
+        return ['large:%d-merged-spikes' % sum(case['large']['sizes']),
+                'probes:%d' % len(case['large']['sizes'])], True
     ps = case['probes']
     labels = ['probes:%d' % len(ps)]
     nt = False
